@@ -432,7 +432,32 @@ fn main() {
         }
         "C08" => run_model(vec![(props::c08(), 120000, 1000000)], tier, replay),
         "C09" => run_model(vec![(props::c09(), 90000, 800000)], tier, replay),
-        "C10" => run_model(vec![(props::c10(false, true), 12000, 120000), (props::c10(true, false), 12000, 120000), (props::c10(true, true), 1500, 15000), (props::c10_backdated(), 8000, 80000)], tier, replay),
+        "C10" => {
+            use skv_verif::engine_crash::crash_prop_c10;
+            let findings = Findings::load();
+            let streams = vec![(props::c10(false, true), 12000u64, 120000u64), (props::c10(true, false), 12000, 120000), (props::c10(true, true), 1500, 15000), (props::c10_backdated(), 8000, 80000)];
+            let crash = crash_prop_c10(4, true);
+            if let Some(p) = replay {
+                let text = std::fs::read_to_string(&p).unwrap_or_default();
+                if text.contains("\"work2\"") {
+                    std::process::exit(replay_one(&crash, &p, &findings));
+                }
+                std::process::exit(replay_one(&streams[0].0, &p, &findings));
+            }
+            let seed = seed_from_env();
+            let t0 = Instant::now();
+            let mut rep = Report::default();
+            run_replays(&streams[0].0, &findings, &mut rep);
+            for (i, (def, q, t)) in streams.iter().enumerate() {
+                rep.merge(run_prop(def, cases_for(tier, *q, *t), seed, i as u64, &findings));
+            }
+            // crash axis: images at every file-operation boundary, also inside a flush (index updated before the manifest)
+            rep.merge(run_prop(&crash, cases_for(tier, 40, 1000), seed, 10, &findings));
+            rep.merge(run_prop(&crash_prop_c10(4, false), cases_for(tier, 20, 500), seed, 11, &findings));
+            let main = &streams[0].0;
+            let rule = format!("{} || CRASH STREAM ({})", main.rule, crash.rule);
+            finish(main.id, main.level, tier, seed, &rule, &main.assumptions, &rep, t0.elapsed().as_secs_f64(), &findings)
+        }
         "C11" => {
             use skv_verif::engine_sched::{sched_prop, Flavor};
             let findings = Findings::load();
